@@ -9,13 +9,22 @@ import Driver.C09Check
   answered.
 
   Records
-    cfg mcap=<n> dcap=<n>
+    cfg mcap=<n> dcap=<n> [buf=<n>]    buf: size of the copy buffer used through the ioCopy seam (0: io.Copy's own)
     op create/open/has/list/stat/complete/delete/setmd/getmd/delmd …      client operations
+    op openk k sc => ok h<i> | op hread h<i> n | op hreadat h<i> n off | op hsize h<i> | op hclose h<i>
+                                       tiered.File handles kept across worker steps and evictions
     step => <point> <key|-> [sfx]      the worker was released and is now parked at <point>:
-                                       idle open opened created copy copyeof copied md unban
+                                       idle open opened created copy copyeof copied mdsnap md mdwrite
+                                       mdcheck fail1 fail2 unban   (or: panic <message>)
+    begin <op…> / cpoint => <c-point> <key> / cstep => …
+                                       a client operation taken apart at the points between its store
+                                       calls (`Tiered.cseg`), with worker steps (`cstep`) in between; the
+                                       `op` record that follows closes it with the result
     probe => mem= memc= disk= diskc= f=<key:d|m:dirty+…> q=
   The `md` point carries the suffix the implementation chose from its dirtyMD map (iteration order
   of a Go map): the model checks that it is in its snapshot and follows that choice.
+  Suffix tokens: m<j> movable, i<j> immovable, u<j> a suffix no metadata factory is registered for
+  (only DeleteMetadata / GetMetadata may name it: see the assumptions of the property).
 
   Monitors (ghost state built from the implementation's answers only: which keys are live, the bytes
   at MarkComplete, the last successful metadata update, where the worker is parked):
@@ -26,12 +35,32 @@ import Driver.C09Check
     md-update-before-unban          its metadata changed while the worker was parked before UnbanEviction
     resurface-during-aborted-flush  it was deleted while the worker was between memOpen and the re-check
   otherwise it is reported under a generic key (lost-blob, corrupt-blob, lost-metadata-update,
-  deleted-key-resurfaced, recreate-blocked).
+  deleted-key-resurfaced, recreate-blocked, handle-lost, handle-bytes, worker-panic).
 -/
 open Driver KrakenModel.BlobStore KrakenModel.Tiered
-open BlobStoreM (key? keyTok keysTok keys? scope? sfx? sfxTok errTok outToks sortNat pf)
+open BlobStoreM (key? keyTok keysTok keys? scope? errTok outToks sortNat pf handle?)
 
 namespace C09
+
+/-- `m<j>` ↦ 2j, `i<j>` ↦ 2j+1, `u<j>` ↦ 1000+2j (no factory) -/
+def sfx? (t : String) : Option Nat :=
+  match t.toList with
+  | 'm' :: ds => (String.ofList ds).toNat?.map (2 * ·)
+  | 'i' :: ds => (String.ofList ds).toNat?.map (2 * · + 1)
+  | 'u' :: ds => (String.ofList ds).toNat?.map (1000 + 2 * ·)
+  | _ => none
+
+def sfxTok (n : Nat) : String :=
+  if n ≥ 1000 then s!"u{(n - 1000) / 2}" else if n % 2 = 0 then s!"m{n / 2}" else s!"i{n / 2}"
+
+def registered (sfx : Nat) : Bool := sfx < 1000
+
+/-- what the clients were told about an open handle: key, the bytes it must deliver (none: no claim —
+    the blob was not complete at Open, or its key has been deleted since), ghost offset -/
+structure GHandle where
+  key : Nat
+  want : Option (List Nat)
+  off : Nat := 0
 
 structure Ghost where
   live : List Nat := []                          -- created and not deleted since
@@ -43,6 +72,7 @@ structure Ghost where
   recreated : List Nat := []
   mdLate : List Nat := []
   delInFlight : List Nat := []
+  handles : List GHandle := []
 
 structure St where
   t : TState := tinit 4 64 1
@@ -50,6 +80,9 @@ structure St where
   pendingSfx : Option Nat := none   -- suffix announced at the last `md` park
   gs : GState := ginit 4 64 1       -- the model with the ghost variables of the Lean statements
   inClass : Bool := true            -- the schedule so far satisfies `pre` (no re-creation while a flush is pending)
+  buf : Nat := 0                    -- chunk length of the copy loop (0: everything at once)
+  files : List TFile := []          -- open tiered.File handles, by handle number
+  pending : Option (List String × COp × Nat) := none   -- a client operation in progress: tokens, op, next segment
 
 def lookupA {β : Type} (l : List (Nat × β)) (k : Nat) : Option β := (l.find? (·.1 = k)).map (·.2)
 def eraseA {β : Type} (l : List (Nat × β)) (k : Nat) : List (Nat × β) := l.filter (·.1 ≠ k)
@@ -72,7 +105,12 @@ def seamOf (w : Worker) : Option String :=
   | .fCopy => some "copy"
   | .fCopyEof => some "copyeof"
   | .fCopied _ => some "copied"
+  | .mdSnap => some "mdsnap"
   | .mdRead (_ :: _) => some "md"
+  | .mdWrite sfx (some _) _ => if registered sfx then some "mdwrite" else none   -- no factory: the worker skips the suffix
+  | .mdCheck => some "mdcheck"
+  | .fail1 => some "fail1"
+  | .fail2 => some "fail2"
   | .unban => some "unban"
   | _ => none
 
@@ -100,9 +138,15 @@ def runWorkerG (gs : GState) (pick : Nat) : Nat → GState × String
 
 def inFlight (g : Ghost) (k : Nat) : Bool := g.wpoint ≠ "idle" ∧ g.wkey = some k
 
-/-- attribute a failure on key `k` to a known schedule class if the ghost state shows one -/
-def classify (g : Ghost) (k : Nat) (generic : String) : String :=
-  if k ∈ g.recreated then "recreate-during-flush"
+/-- attribute a failure on key `k` to a known schedule class if the ghost state shows one **and** the
+    failing observation has the signature of that class: after a re-creation during a flush the new
+    blob is never flushed — it is lost, opens as the empty incomplete file the stale worker created,
+    its metadata updates are lost, its key lingers on disk; wrong non-empty bytes are not that -/
+def classify (g : Ghost) (k : Nat) (generic : String) (impl : List String := []) : String :=
+  if k ∈ g.recreated ∧ (generic = "lost-blob" ∨ generic = "lost-metadata-update" ∨ generic = "recreate-blocked" ∨
+      generic = "deleted-key-resurfaced" ∨ generic = "handle-lost" ∨
+      ((generic = "corrupt-blob" ∨ generic = "handle-bytes") ∧ (impl = ["ok", "x"] ∨ impl = ["eof"] ∨ impl = ["0"]))) then
+    "recreate-during-flush"
   else if generic = "lost-metadata-update" ∧ k ∈ g.mdLate then "md-update-before-unban"
   else if (generic = "deleted-key-resurfaced" ∨ generic = "recreate-blocked") ∧ k ∈ g.delInFlight then
     "resurface-during-aborted-flush"
@@ -133,7 +177,7 @@ def opFails (s : St) (name : String) (k : Nat) (sc : Scope) (sfx : Nat) (impl : 
       if exempt ∨ sc = .incomplete then [] else
       if impl = ["ok", bytesTok bytes] then []
       else if impl.head? = some "ok" then
-        [pf (classify g k "corrupt-blob") s!"open {keyTok k}: completed with {bytesTok bytes}, implementation returned {sp impl}"]
+        [pf (classify g k "corrupt-blob" impl) s!"open {keyTok k}: completed with {bytesTok bytes}, implementation returned {sp impl}"]
       else [pf (classify g k "lost-blob") s!"open {keyTok k}: completed with {bytesTok bytes}, implementation returned {sp impl}"]
     | none => []
   | "getmd" =>
@@ -193,93 +237,271 @@ def ghostOp (s : St) (name : String) (k : Nat) (sfx : Nat) (data : List Nat) (im
     if g.wpoint = "unban" ∧ g.wkey = some k then { g with mdLate := k :: g.mdLate } else g
   | _ => g
 
-def stepOp (s : St) (args impl : List String) : Option (St × StepOut) :=
-  let fin (name : String) (k : Nat) (sc : Scope) (sfx : Nat) (data : List Nat) (co : COp) (br : String)
-      (extra : List String := []) : Option (St × StepOut) :=
+/-- parse a client operation of the model -/
+def cop? (args : List String) : Option (String × Nat × Scope × Nat × List Nat × COp) :=
+  match args with
+  | ["create", kt, nt, dt] => do
+    let k ← key? kt
+    let n ← nat? nt
+    let d ← bytes? dt
+    some ("create", k, .any, 0, d, .create k n d)
+  | ["open", kt, sct] => do
+    let k ← key? kt
+    let sc ← scope? sct
+    some ("open", k, sc, 0, [], .open k sc)
+  | ["has", kt, sct] => do
+    let k ← key? kt
+    let sc ← scope? sct
+    some ("has", k, sc, 0, [], .has k sc)
+  | ["list", sct] => do
+    let sc ← scope? sct
+    some ("list", 0, sc, 0, [], .list sc)
+  | ["stat", kt, sct] => do
+    let k ← key? kt
+    let sc ← scope? sct
+    some ("stat", k, sc, 0, [], .stat k sc)
+  | ["complete", kt] => do
+    let k ← key? kt
+    some ("complete", k, .any, 0, [], .markComplete k)
+  | ["delete", kt, sct] => do
+    let k ← key? kt
+    let sc ← scope? sct
+    some ("delete", k, sc, 0, [], .delete k sc)
+  | ["setmd", kt, sct, st, vt] => do
+    let k ← key? kt
+    let sc ← scope? sct
+    let sfx ← sfx? st
+    let v ← bytes? vt
+    -- a metadata type without a factory is outside the domain (assumption of the property)
+    if !registered sfx then none else
+    some ("setmd", k, sc, sfx, v, .setMd k sc { sfx := sfx, movable := sfx % 2 = 0, val := v })
+  | ["getmd", kt, sct, st] => do
+    let k ← key? kt
+    let sc ← scope? sct
+    let sfx ← sfx? st
+    some ("getmd", k, sc, sfx, [], .getMd k sc sfx)
+  | ["delmd", kt, sct, st] => do
+    let k ← key? kt
+    let sc ← scope? sct
+    let sfx ← sfx? st
+    some ("delmd", k, sc, sfx, [], .delMd k sc sfx)
+  | _ => none
+
+/-- the branch label of a client operation (which path of the code the model takes) -/
+def branchOf (s : St) (name : String) (k : Nat) (co : COp) : String :=
+  let cls (o : Out) : String := match o with
+    | .err e => errTok e
+    | .absent => "absent"
+    | _ => "ok"
+  let where_ : String :=
+    (if inStore s.t.mem k then "m" else "") ++ (if inStore s.t.disk k then "d" else "") ++
+    (if (fget s.t.fmap k).isSome then "f" else "")
+  let r := capply s.t co
+  match name with
+  | "create" =>
+    (match r.2 with
+      | .ok => if inStore r.1.mem k then "mem" else "disk-fallback"
+      | o => cls o) ++ (if inFlight s.g k then "+inflight" else "")
+  | "has" => "".intercalate (outToks r.2)
+  | "list" => match co with | .list .any => "any" | .list .complete => "c" | _ => "i"
+  | "stat" => cls r.2
+  | "complete" =>
+    if isComplete s.t.mem k ∨ isComplete s.t.disk k then "noop" else
+    if inStore s.t.mem k then "mem-dirty" else if inStore s.t.disk k then "disk" else "notexist"
+  | "delete" => cls r.2 ++ "." ++ where_ ++ (if inFlight s.g k then "+inflight" else "")
+  | "setmd" => cls r.2 ++ "." ++ where_ ++ (if s.g.wpoint = "unban" ∧ s.g.wkey = some k then "+unban" else "")
+  | _ => cls r.2 ++ "." ++ where_
+
+def hookName (name : String) (i : Nat) : String :=
+  if name = "create" then "c-create" else s!"c-{name}{i}"
+
+/-- the handles of a deleted key carry no claim any more -/
+def dropClaims (g : Ghost) (k : Nat) : Ghost :=
+  { g with handles := g.handles.map fun h => if h.key = k then { h with want := none } else h }
+
+def stepOp (s : St) (args impl : List String) : Option (St × StepOut) := do
+  -- the split annotation `@a,b` (worker steps at the points of the operation) is for the harness only
+  let args := args.filter (fun a => !a.startsWith "@")
+  let (name, k, sc, sfx, data, co) ← cop? args
+  let extra := if name = "list" then listFails s impl else []
+  match s.pending with
+  | some (pargs, pco, stage) =>
+    -- the operation was begun and has passed `stage` points: run what is left of it
+    if pargs ≠ args ∨ pco ≠ co then none else
+    let r := if stage = 0 then capply s.t co else crun s.t co stage 4
+    let obs := outToks r.2
+    let generic := if obs = impl then [] else [pf s!"result-{name}" s!"{name} (in {stage + 1} parts): reference {sp obs} implementation {sp impl}"]
+    let fails := opFails s name k sc sfx impl ++ extra
+    let g := ghostOp s name k sfx data impl
+    -- a handle's claim ends when its key is deleted — or created again, which can only succeed once the
+    -- blob is gone from both tiers (evicted from disk: the property makes no claim any more)
+    let g := if (name = "delete" ∨ name = "create") ∧ impl = ["ok"] then dropClaims g k else g
+    some ({ s with t := r.1, g := g, pending := none, inClass := s.inClass && stage = 0 },
+          { obs := obs, branch := s!"{name}.split{stage}", propfails := if fails.isEmpty then generic else fails })
+  | none =>
     let r := capply s.t co
     let obs := outToks r.2
     let generic := if obs = impl then [] else [pf s!"result-{name}" s!"{name}: reference {sp obs} implementation {sp impl}"]
     let fails := opFails s name k sc sfx impl ++ extra
     -- the invariant of the Lean proof, evaluated on the model (only inside the schedule class it is about)
     let inClass := s.inClass && C09Check.preB s.gs (.client co)
-    let gs := gstep s.gs (.client co)
+    let gs := if s.inClass then gstep s.gs (.client co) else s.gs
     let bad := if inClass then C09Check.invFail gs else ""
     let mfail := if bad = "" then [] else [s!"side=model key=model-invariant after {name}: {bad}"]
-    some ({ s with t := r.1, g := ghostOp s name k sfx data impl, gs := gs, inClass := inClass },
-          { obs := obs, branch := s!"{name}.{br}{if inClass then "" else "~"}",
+    let g := ghostOp s name k sfx data impl
+    -- a handle's claim ends when its key is deleted — or created again, which can only succeed once the
+    -- blob is gone from both tiers (evicted from disk: the property makes no claim any more)
+    let g := if (name = "delete" ∨ name = "create") ∧ impl = ["ok"] then dropClaims g k else g
+    some ({ s with t := r.1, g := g, gs := gs, inClass := inClass },
+          { obs := obs, branch := s!"{name}.{branchOf s name k co}{if inClass then "" else "~"}",
             propfails := (if fails.isEmpty then generic else fails) ++ mfail })
-  let cls (o : Out) : String := match o with
-    | .err e => errTok e
-    | .absent => "absent"
-    | _ => "ok"
-  let where_ (k : Nat) : String :=
-    (if inStore s.t.mem k then "m" else "") ++ (if inStore s.t.disk k then "d" else "") ++
-    (if (fget s.t.fmap k).isSome then "f" else "")
+
+/-- `begin <op…>`: a client operation that will be taken apart starts -/
+def stepBegin (s : St) (args : List String) : Option (St × StepOut) := do
+  let args := args.filter (fun a => !a.startsWith "@")
+  let (name, _, _, _, _, co) ← cop? args
+  if s.pending.isSome then none else
+  some ({ s with pending := some (args, co, 0) }, { obs := [], branch := s!"begin.{name}" })
+
+/-- `cpoint => <name> <key>`: the operation in progress has reached its next point -/
+def stepCPoint (s : St) (impl : List String) : Option (St × StepOut) := do
+  let (pargs, co, stage) ← s.pending
+  let name := pargs.headD "?"
+  let k := match pargs with | _ :: kt :: _ => (key? kt).getD 0 | _ => 0
+  let r := cseg s.t co stage
+  match r.2 with
+  | none =>
+    let obs := [hookName name (stage + 1), keyTok k]
+    let fails := if obs = impl then [] else [pf "result-cpoint" s!"{name}: reference reaches {sp obs}, implementation {sp impl}"]
+    some ({ s with t := r.1, pending := some (pargs, co, stage + 1), inClass := false },
+          { obs := obs, branch := s!"cpoint.{hookName name (stage + 1)}", propfails := fails })
+  | some out =>
+    -- the model's operation ends here: the implementation went another way
+    some (s, { obs := ["none"] ++ outToks out, branch := "cpoint.none",
+               propfails := [pf "result-cpoint" s!"{name}: reference ends with {sp (outToks out)}, implementation reached {sp impl}"] })
+
+/-! handles -/
+
+def foutToks : FOut → List String
+  | .data b => ["ok", bytesTok b]
+  | .eof => ["eof"]
+  | .n v => [toString v]
+  | .badSwitch => ["badswitch"]
+  | .unknown => ["?"]
+  | .err e => [errTok e]
+
+def setAt {α : Type} (l : List α) (i : Nat) (a : α) : List α := l.set i a
+
+/-- the property on what a handle delivered: a handle opened on a completed blob keeps delivering that
+    blob's bytes, whatever the flusher and the eviction from memory do, until the key is deleted or
+    evicted from disk -/
+def handleFails (s : St) (i : Nat) (what : String) (n off : Nat) (impl : List String) : List String × Ghost :=
+  match s.g.handles[i]? with
+  | none => ([], s.g)
+  | some h =>
+    match h.want with
+    | none => ([], s.g)
+    | some bytes =>
+      if h.key ∈ s.t.diskEvicted then ([], { s.g with handles := setAt s.g.handles i { h with want := none } }) else
+      let at_ := if what = "hread" then h.off else off
+      let wantOut : List String :=
+        if what = "hsize" then [toString bytes.length]
+        else if n = 0 then ["ok", "x"]
+        else if bytes.length ≤ at_ then ["eof"]
+        else
+          let out := (bytes.drop at_).take n
+          if what = "hreadat" ∧ out.length < n then ["ok", bytesTok out, "eof"] else ["ok", bytesTok out]
+      let adv := if what = "hread" ∧ bytes.length > at_ then ((bytes.drop at_).take n).length else 0
+      let g' := { s.g with handles := setAt s.g.handles i { h with off := h.off + adv } }
+      if impl = wantOut then ([], g') else
+      let generic := if impl.head? = some "ok" ∨ what = "hsize" ∨ impl = ["eof"] then "handle-bytes" else "handle-lost"
+      ([pf (classify s.g h.key generic impl)
+          s!"{what} h{i} ({keyTok h.key}, completed with {bytesTok bytes}): expected {sp wantOut}, implementation returned {sp impl}"], g')
+
+def stepHandle (s : St) (args impl : List String) : Option (St × StepOut) :=
   match args with
-  | ["create", kt, nt, dt] => do
+  | ["openk", kt, sct] => do
     let k ← key? kt
+    let sc ← scope? sct
+    let r := tOpenFile s.t k sc
+    let i := s.files.length
+    let obs := match r.2.1 with
+      | some _ => ["ok", s!"h{i}"]
+      | none => outToks r.2.2
+    let opened := impl.head? = some "ok"
+    -- the same predicates as for `open`: a completed blob must open
+    let fails := if opened then [] else
+      match lookupA s.g.done k with
+      | some bytes =>
+        if k ∈ s.t.diskEvicted ∨ sc = .incomplete then [] else
+        [pf (classify s.g k "lost-blob" impl) s!"open {keyTok k}: completed with {bytesTok bytes}, implementation returned {sp impl}"]
+      | none => []
+    let generic := if obs = impl then [] else [pf "result-openk" s!"openk: reference {sp obs} implementation {sp impl}"]
+    let gh : GHandle := { key := k, want := if k ∈ s.g.live ∧ sc ≠ .incomplete then lookupA s.g.done k else none }
+    let files := match r.2.1 with | some f => s.files ++ [f] | none => if opened then s.files ++ [{ key := k }] else s.files
+    let g := if opened then { s.g with handles := s.g.handles ++ [gh] } else s.g
+    let inClass := s.inClass && C09Check.preB s.gs (.client (.open k sc))
+    let gs := if s.inClass then gstep s.gs (.client (.open k sc)) else s.gs
+    some ({ s with t := r.1, files := files, g := g, gs := gs, inClass := inClass },
+          { obs := obs, branch := s!"openk.{if (r.2.1.bind (·.mem)).isSome then "mem" else if r.2.1.isSome then "disk" else "fail"}",
+            propfails := if fails.isEmpty then generic else fails })
+  | ["hread", ht, nt] => do
+    let i ← handle? ht
     let n ← nat? nt
-    let d ← bytes? dt
-    let co : COp := .create k n d
-    let r := tCreate s.t k n d
-    let br := match r.2 with
-      | .ok => if inStore r.1.mem k then "mem" else "disk-fallback"
-      | o => cls o
-    fin "create" k .any 0 d co (br ++ (if inFlight s.g k then "+inflight" else ""))
-  | ["open", kt, sct] => do
-    let k ← key? kt
-    let sc ← scope? sct
-    let r := tOpen s.t k sc
-    fin "open" k sc 0 [] (.open k sc) (cls r.2 ++ "." ++ where_ k)
-  | ["has", kt, sct] => do
-    let k ← key? kt
-    let sc ← scope? sct
-    let r := tHas s.t k sc
-    fin "has" k sc 0 [] (.has k sc) (sp (outToks r.2))
-  | ["list", sct] => do
-    let sc ← scope? sct
-    fin "list" 0 sc 0 [] (.list sc) sct (listFails s impl)
-  | ["stat", kt, sct] => do
-    let k ← key? kt
-    let sc ← scope? sct
-    let r := tStat s.t k sc
-    fin "stat" k sc 0 [] (.stat k sc) (cls r.2)
-  | ["complete", kt] => do
-    let k ← key? kt
-    let br := if isComplete s.t.mem k ∨ isComplete s.t.disk k then "noop" else
-      if inStore s.t.mem k then "mem-dirty" else if inStore s.t.disk k then "disk" else "notexist"
-    fin "complete" k .any 0 [] (.markComplete k) br
-  | ["delete", kt, sct] => do
-    let k ← key? kt
-    let sc ← scope? sct
-    let r := tDelete s.t k sc
-    fin "delete" k sc 0 [] (.delete k sc) (cls r.2 ++ "." ++ where_ k ++ (if inFlight s.g k then "+inflight" else ""))
-  | ["setmd", kt, sct, st, vt] => do
-    let k ← key? kt
-    let sc ← scope? sct
-    let sfx ← sfx? st
-    let v ← bytes? vt
-    let r := tSetMd s.t k sc { sfx := sfx, movable := sfx % 2 = 0, val := v }
-    fin "setmd" k sc sfx v (.setMd k sc { sfx := sfx, movable := sfx % 2 = 0, val := v }) (cls r.2 ++ "." ++ where_ k ++ (if s.g.wpoint = "unban" ∧ s.g.wkey = some k then "+unban" else ""))
-  | ["getmd", kt, sct, st] => do
-    let k ← key? kt
-    let sc ← scope? sct
-    let sfx ← sfx? st
-    let r := tGetMd s.t k sc sfx
-    fin "getmd" k sc sfx [] (.getMd k sc sfx) (cls r.2 ++ "." ++ where_ k)
-  | ["delmd", kt, sct, st] => do
-    let k ← key? kt
-    let sc ← scope? sct
-    let sfx ← sfx? st
-    let r := tDelMd s.t k sc sfx
-    fin "delmd" k sc sfx [] (.delMd k sc sfx) (cls r.2 ++ "." ++ where_ k)
+    let f ← s.files[i]?
+    let r := tfRead s.t f n
+    let obs := foutToks r.2.2
+    let (fails, g) := handleFails s i "hread" n 0 impl
+    let known := r.2.2 ≠ .unknown
+    let generic := if !known ∨ obs = impl then [] else [pf "result-hread" s!"hread h{i}: reference {sp obs} implementation {sp impl}"]
+    let switched := f.sw = .notYet ∧ r.2.1.sw ≠ .notYet
+    some ({ s with t := r.1, files := setAt s.files i r.2.1, g := g, inClass := s.inClass && !switched },
+          { obs := if known then obs else impl,
+            branch := s!"hread.{if !known then "unlinked" else if r.2.1.sw = .bad then "badswitch" else if switched then "switch" else if f.sw ≠ .notYet then "disk" else "mem"}",
+            propfails := if fails.isEmpty then generic else fails })
+  | ["hreadat", ht, nt, ot] => do
+    let i ← handle? ht
+    let n ← nat? nt
+    let off ← nat? ot
+    let f ← s.files[i]?
+    let r := tfReadAt s.t f n off
+    let obs := foutToks r.2.2.1 ++ (if r.2.2.2 then ["eof"] else [])
+    let (fails, g) := handleFails s i "hreadat" n off impl
+    let known := r.2.2.1 ≠ .unknown
+    let generic := if !known ∨ obs = impl then [] else [pf "result-hreadat" s!"hreadat h{i}: reference {sp obs} implementation {sp impl}"]
+    let switched := f.sw = .notYet ∧ r.2.1.sw ≠ .notYet
+    some ({ s with t := r.1, files := setAt s.files i r.2.1, g := g, inClass := s.inClass && !switched },
+          { obs := if known then obs else impl,
+            branch := s!"hreadat.{if !known then "unlinked" else if r.2.1.sw = .bad then "badswitch" else if switched then "switch" else if f.sw ≠ .notYet then "disk" else "mem"}",
+            propfails := if fails.isEmpty then generic else fails })
+  | ["hsize", ht] => do
+    let i ← handle? ht
+    let f ← s.files[i]?
+    let r := tfSize s.t f
+    let obs := foutToks r.2.2
+    let (fails, g) := handleFails s i "hsize" 0 0 impl
+    let known := r.2.2 ≠ .unknown
+    let generic := if !known ∨ obs = impl then [] else [pf "result-hsize" s!"hsize h{i}: reference {sp obs} implementation {sp impl}"]
+    let switched := f.sw = .notYet ∧ r.2.1.sw ≠ .notYet
+    some ({ s with t := r.1, files := setAt s.files i r.2.1, g := g, inClass := s.inClass && !switched },
+          { obs := if known then obs else impl,
+            branch := s!"hsize.{if !known then "unlinked" else if r.2.1.sw = .bad then "badswitch" else if switched then "switch" else if f.sw ≠ .notYet then "disk" else "mem"}",
+            propfails := if fails.isEmpty then generic else fails })
+  | ["hclose", ht] => do
+    let i ← handle? ht
+    let _ ← s.files[i]?
+    some ({ s with g := { s.g with handles := setAt s.g.handles i { key := 0, want := none } } },
+          { obs := ["ok"], branch := "hclose" })
   | _ => none
 
 def stepWorker (s : St) (impl : List String) : Option (St × StepOut) :=
   let w := worker0 s.t
-  -- the suffix announced at the last `md` park selects the snapshot entry flushed now
+  -- the suffix announced at the last `md` park selects the snapshot entry flushed now; a copy step
+  -- moves one buffer
   let pick := match w.pc, s.pendingSfx with
     | .mdRead todo, some sfx => todo.idxOf sfx
+    | .fCopy, _ => s.buf
+    | .fCopyEof, _ => s.buf
     | _, _ => 0
   let t' := runWorker s.t pick 64
   let (gs', bad) := if s.inClass then runWorkerG s.gs pick 64 else (s.gs, "")
@@ -291,20 +513,23 @@ def stepWorker (s : St) (impl : List String) : Option (St × StepOut) :=
   let (obs, pend, bad) := match w'.pc with
     | .mdRead todo =>
       match implSfx with
-      | some sfx => if sfx ∈ todo then (["md", "-", sfxTok sfx], some sfx, false)
-                    else (["md", "-", listTok (todo.map sfxTok)], none, true)
-      | none => (["md", "-", sfxTok (todo.headD 0)], none, false)
+      | some sfx => if sfx ∈ todo then (["md", keyTok w'.key, sfxTok sfx], some sfx, false)
+                    else (["md", keyTok w'.key, listTok (todo.map sfxTok)], none, true)
+      | none => (["md", keyTok w'.key, sfxTok (todo.headD 0)], none, false)
+    | .mdWrite sfx _ _ => (["mdwrite", keyTok w'.key, sfxTok sfx], none, false)
     | .idle => (["idle", "-"], none, false)
     | _ => ([name, keyTok w'.key], none, false)
   let g := { s.g with wpoint := impl.headD "?", wkey := match impl with | _ :: kt :: _ => key? kt | _ => none }
-  -- a worker that went back to idle (or parks at md: key not reported) keeps the last key it announced
-  let g := if g.wpoint = "md" then { g with wkey := some w'.key } else g
+  -- a worker that went back to idle keeps no key
   -- once the worker has gone past its re-check the "deleted in flight" attribution ends
   let g := if g.wpoint = "idle" then { g with delInFlight := [] } else g
-  let fails := if bad then [pf "md-flush-not-dirty" s!"worker flushes {sp impl}, dirty snapshot is {sp obs}"] else
+  let fails :=
+    if impl.head? = some "panic" then
+      [pf "worker-panic" s!"the flush worker panicked (a panic on its goroutine takes the process down): {sp impl}; the reference parks at {sp obs}"]
+    else if bad then [pf "md-flush-not-dirty" s!"worker flushes {sp impl}, dirty snapshot is {sp obs}"] else
     if obs ≠ impl then [pf "result-step" s!"worker: reference parks at {sp obs}, implementation at {sp impl}"] else []
   some ({ s with t := t', g := g, pendingSfx := pend, gs := gs' },
-        { obs := obs, branch := s!"step.{name}", propfails := fails ++ mfail })
+        { obs := obs, branch := s!"step.{name}{if s.pending.isSome then "+split" else ""}", propfails := fails ++ mfail })
 
 def stepProbe (s : St) (impl : List String) : Option (St × StepOut) :=
   let obs := probeToks s.t
@@ -313,15 +538,25 @@ def stepProbe (s : St) (impl : List String) : Option (St × StepOut) :=
   some (s, { obs := obs, branch := "probe", propfails := fails })
 
 def step (s : St) (kind : String) (args impl : List String) : Option (St × StepOut) :=
-  if kind = "op" then stepOp s args impl
-  else if kind = "step" then stepWorker s impl
+  if kind = "op" then
+    match args.head? with
+    | some "openk" | some "hread" | some "hreadat" | some "hsize" | some "hclose" => stepHandle s args impl
+    | _ => stepOp s args impl
+  else if kind = "step" ∨ kind = "cstep" then stepWorker s impl
   else if kind = "probe" then stepProbe s impl
+  else if kind = "begin" then stepBegin s args
+  else if kind = "cpoint" then stepCPoint s impl
+  else if kind = "one" ∧ args.head? = some "free" then
+    -- one uncontrolled run (default workers, real goroutines): its predicates are evaluated by the
+    -- harness on what the implementation answered (PROPFAIL lines); the record carries its parameters
+    some (s, { obs := ["ok"], branch := "free" })
   else none
 
 def initSt (cfg : List String) : Option St := do
   let mcap ← match kv? cfg "mcap" with | some c => nat? c | none => some 4
   let dcap ← match kv? cfg "dcap" with | some c => nat? c | none => some 64
-  some { t := tinit mcap dcap 1, gs := ginit mcap dcap 1 }
+  let buf ← match kv? cfg "buf" with | some c => nat? c | none => some 0
+  some { t := tinit mcap dcap 1, gs := ginit mcap dcap 1, buf := buf }
 
 def machine : Machine := { σ := St, name := "ts", init := initSt, step := step }
 
